@@ -326,6 +326,47 @@ def reflog_100():
     save("reflog_100", ["C08", "C11", "C18"], steps)
 
 
+def empty_states():
+    """the empty staging area, the empty tree and the commit with the empty snapshot, reached the way a user reaches them"""
+    steps = head()
+    steps.append({"ev": "writetree"})                      # empty index right after init
+    steps.append(w("a.txt", "a\n"))
+    steps.append(w("dir/b.txt", "b\n"))
+    steps.append({"ev": "add", "paths": ["."]})
+    steps.append({"ev": "writetree"})
+    steps.append({"ev": "commit", "msg": "one"})
+    steps.append({"ev": "rm", "paths": ["a.txt", "dir/b.txt"]})          # staging area empty, HEAD has two paths
+    steps.append({"ev": "lsfiles"})
+    steps.append({"ev": "status"})
+    steps.append({"ev": "writetree"})
+    steps.append({"ev": "catfile", "flag": "p", "idref": "tree:0"})
+    steps.append({"ev": "restores", "paths": ["a.txt"]})                  # re-created from HEAD although the index was empty
+    steps.append({"ev": "lsfiles"})
+    steps.append({"ev": "restore", "paths": ["a.txt"]})
+    steps.append({"ev": "rm", "paths": ["a.txt"]})
+    steps.append({"ev": "restores", "paths": ["dir"]})
+    steps.append({"ev": "restores", "paths": ["no-such-file"]})           # refused
+    steps.append({"ev": "lsfiles"})
+    steps.append({"ev": "rm", "paths": ["dir"]})
+    steps.append({"ev": "commit", "msg": "empty"})                        # the commit with the empty snapshot
+    steps.append({"ev": "status"})
+    steps.append({"ev": "log", "n": 3})
+    steps.append({"ev": "catfile", "flag": "p", "idref": "head"})
+    steps.append({"ev": "commit", "msg": "nothing"})                      # refused
+    steps.append(w("c.txt", "c\n"))
+    steps.append({"ev": "add", "paths": ["c.txt"]})
+    steps.append({"ev": "commit", "msg": "three"})
+    steps.append({"ev": "reset", "mode": "mixed", "arg": esc("HEAD@{1}")})   # to the empty snapshot with a non-empty staging area
+    steps.append({"ev": "lsfiles"})
+    steps.append({"ev": "status"})
+    steps.append({"ev": "reset", "mode": "hard", "arg": esc("HEAD@{1}")})    # back to "three"
+    steps.append({"ev": "lsfiles"})
+    steps.append({"ev": "reset", "mode": "mixed", "arg": esc("HEAD@{4}")})   # to "one"
+    steps.append({"ev": "lsfiles"})
+    steps.append({"ev": "status"})
+    save("empty_states", ["C01", "C02", "C03", "C05", "C07", "C08", "C09", "C13"], steps)
+
+
 if __name__ == "__main__":
     name_lengths()
     big_index()
@@ -337,3 +378,4 @@ if __name__ == "__main__":
     punct_identity()
     content_sizes()
     reflog_100()
+    empty_states()
